@@ -160,7 +160,10 @@ def prop(case):
         value = build_value(spec)
     except GfapyError:
         return {"nt": False, "unbuildable": True}
-    line = gfapy.Line(text, version=version, vlevel=vlevel)
+    try:
+        line = gfapy.Line(text, version=version, vlevel=vlevel)
+    except Exception as e:
+        raise Violation("carrier-refused", "the valid line %r that is to carry the tag is refused: %s: %s" % (text, type(e).__name__, str(e)[:200]), type(e).__name__)
     pre = case.get("pre")
     if pre is not None:
         # the tag existed before with another value (and datatype) and was deleted:
